@@ -333,7 +333,8 @@ theorem advance_or_wait (hr : ReachC cfg s) (hne : s.rt ≠ .exited) :
       have e7 : (match s.st (.root .orchestrator) with | .stopping _ _ => noLiveSub s | _ => false) = false := by
         have := (hR .orchestrator (by decide)).1
         cases h : s.st (.root .orchestrator) <;> simp_all
-      simp [hrtU, hscU, e1, e2, e3, e4, e5, e6, e7]
+      simp only [hrtU, hscU, e1, e2, e3, e4, e5, e6, Bool.or_false, Bool.false_or]
+      exact e7
     refine Or.inr ⟨hurg, ?_⟩
     intro htr
     -- after a trigger, only the wait for the hung tasks is left
@@ -393,7 +394,7 @@ theorem advance_or_wait (hr : ReachC cfg s) (hne : s.rt ≠ .exited) :
         by_cases h : dl ≤ s.now
         · exact absurd ⟨dl, hrt, Or.inr h⟩ ha4
         · omega
-      refine ⟨dl, rfl, hlt, ?_⟩
+      refine ⟨dl, hrt, hlt, ?_⟩
       rw [coopDelay_iff]
       refine ⟨hurg, ?_⟩
       have hall := hC.hungRoots (by simp [hrt]) (by simp [hrt]) (by simp [hrt])
@@ -409,7 +410,44 @@ theorem advance_or_wait (hr : ReachC cfg s) (hne : s.rt ≠ .exited) :
       have d4 : (match s.sc with | .cleanup since => decide (s.now + (dl - s.now) ≤ since + cfg.C) | _ => true) = true := by
         obtain ⟨p, hp, _⟩ := hC.scOver (hall .startupCleanup)
         simp [hp]
-      simp only [d1, d2, hrt, d4, Bool.and_true, Bool.true_and, decide_eq_true_eq]
-      omega
+      have d3 : decide (s.now + (dl - s.now) ≤ dl) = true := by simp; omega
+      rw [d1, d2]
+      simp only [hrt, d3, Bool.and_self, Bool.true_and]
+      exact d4
+
+theorem stepC_eq_step {l : Label} (hnd : ∀ n, l ≠ .delay n) : stepC cfg s l = step cfg s l := by
+  cases l <;> first | rfl | exact absurd rfl (hnd _)
+
+theorem returns_aux : ∀ (n : Nat) (s : State), mu cfg s ≤ n → ReachC cfg s → Triggered s →
+    ∃ ls s', runI cfg s ls = some s' ∧ s'.rt = .exited := by
+  intro n
+  induction n with
+  | zero =>
+    intro s hmu hr ht
+    by_cases hex : s.rt = .exited
+    · exact ⟨[], s, rfl, hex⟩
+    · exfalso
+      rcases advance_or_wait hr hex with ⟨l, s1, _, _, _, hlt⟩ | ⟨_, hw⟩
+      · omega
+      · obtain ⟨dl, hrt, hlt, _⟩ := hw ht
+        have : 0 < mu cfg s := by simp only [mu, hrt, rtRank]; omega
+        omega
+  | succ n ih =>
+    intro s hmu hr ht
+    by_cases hex : s.rt = .exited
+    · exact ⟨[], s, rfl, hex⟩
+    · rcases advance_or_wait hr hex with ⟨l, s1, hint, hnd, hstep, hlt⟩ | ⟨_, hw⟩
+      · have hsc : stepC cfg s l = some s1 := by rw [stepC_eq_step hnd]; exact hstep
+        obtain ⟨ls, s', hrun, hex'⟩ := ih s1 (by omega) (hr.step hsc) (triggered_step ht hstep)
+        exact ⟨l :: ls, s', by simp [runI, hint, hsc, hrun], hex'⟩
+      · obtain ⟨dl, hrt, hlt, hco⟩ := hw ht
+        have hstep : step cfg s (.delay (dl - s.now)) = some { s with now := s.now + (dl - s.now) } := by
+          simp [step, hex]; omega
+        have hsc : stepC cfg s (.delay (dl - s.now)) = some { s with now := s.now + (dl - s.now) } := by
+          simp only [stepC, hco, if_true]; exact hstep
+        have hlt' : mu cfg { s with now := s.now + (dl - s.now) } < mu cfg s := by
+          simp only [mu, hrt, hungTime]; omega
+        obtain ⟨ls, s', hrun, hex'⟩ := ih _ (by omega) (hr.step hsc) (triggered_step ht hstep)
+        exact ⟨.delay (dl - s.now) :: ls, s', by simp [runI, internal, hsc, hrun], hex'⟩
 
 end Kopf.C20
